@@ -31,6 +31,7 @@ CONSTANTS
   LoadUnderLock = TRUE
   AbsentPurge = FALSE
   Reapplies = FALSE
+  ClientGones = TRUE
   Ghost = TRUE
 SYMMETRY Sym
 INVARIANTS
